@@ -115,8 +115,10 @@ class C11(PropBase):
         if sc.get('_idle_end') is not None and not all(sc['_idle_end']):
             out.append(('idle', 'started layers not idle again within %s s of the fault: %s' % (sc.get('fault_wait_s', 8), sc['_idle_end'])))
         errs = res['errors'][0] + res['errors'][1]
-        if happened and f['kind'] == 'drop' and len(G) < len(S) and not errs:
-            out.append(('reported', 'a frame of a multi-frame message was lost but no error was reported on either side'))
+        ff = bytes(sc.get('_fault_frame') or b'\x00')
+        if happened and f['kind'] == 'drop' and (ff[0] >> 4) in (1, 2, 3) and not errs:
+            # (normal addressing in these scenarios: the first byte is the PCI; a lost Single Frame is silent by nature)
+            out.append(('reported', 'a frame of a multi-frame message (PCI %02x) was lost but no error was reported on either side' % ff[0]))
         if not happened and errs:
             out.append(('clean', 'no fault happened but errors were reported: %s' % errs[:3]))
         if res['send_exc'] or res['stuck_senders']:
